@@ -59,7 +59,7 @@ def pyproject_variants():
 def doc_versions(rng, n, directed=False):
     """sequence of (target, text, label); target in doc/pkg_conf/root_conf"""
     parts = {"und": False, "und2": False, "cycle": False, "self": False, "mismatch": False, "mismatch_ok": False,
-             "mismatch2": False, "mismatch_h": False, "mismatch_h2": False}
+             "mismatch2": False, "mismatch_h": False, "mismatch_h2": False, "twice": False, "twice_bad": False}
     hname = ["fh"]
     pkg_has_fd = True
     root_has_fa = True
@@ -81,6 +81,10 @@ def doc_versions(rng, n, directed=False):
             s += fx("wide_h", ["fh"], scope="session")                  # dependency supplied through the conftest's import
         if parts["mismatch_h2"]:
             s += fx("wide_h2", ["fh2", "hconst"], scope="session")
+        if parts["twice"]:
+            # the same fixture name defined twice in the document (one per test class); "bad": both broader than their dependency
+            sc = '(scope="session")' if parts["twice_bad"] else ""
+            s += "".join(f"class Test{c}:\n    @pytest.fixture{sc}\n    def data(self, fb):\n        return 1\n\n    def test_in_{c.lower()}(self, data):\n        pass\n\n" for c in "AB")
         s += "def test_ok(fa, fd):\n    pass\n\n"
         if parts["und"]:
             s += "def test_und():\n    v = fb\n    assert fb.x\n\n"
@@ -101,6 +105,13 @@ def doc_versions(rng, n, directed=False):
     parts["und"] = parts["cycle"] = parts["mismatch"] = True
     steps.append(("doc", render(), "add_all_kinds"))
     if directed:
+        # one name defined twice in the document: the scopes are corrected, then both definitions are deleted
+        parts["twice"] = parts["twice_bad"] = True
+        steps.append(("doc", render(), "add_twice_bad"))
+        parts["twice_bad"] = False
+        steps.append(("doc", render(), "twice_scopes_corrected"))
+        parts["twice"] = False
+        steps.append(("doc", render(), "remove_twice"))
         # a dependency that the conftest supplies through its import is renamed in the imported module
         parts["mismatch_h"] = True
         steps.append(("doc", render(), "add_mismatch_h"))
@@ -355,6 +366,42 @@ def run(ctx):
                                        "missing": [str(x)[:120] for x in exp if x not in gotn][:3], "unexpected": [str(x)[:120] for x in gotn if x not in exp][:3]},
                                       {"published_at_all": got is not None, "disabled": sorted(disabled)}, files=files | {"pkg/test_new_doc.py": t2})
                     ctx.nontrivial((label, "new_document_through_symlink", tuple(sorted({d.get("code") for d in (got or [])}))))
+                    # the open document is opened a second time under another spelling of its path (the symbolic link), then
+                    # changed under the FIRST spelling: the publication for that change arrives under the spelling the change
+                    # was sent with, and carries the findings of the new text
+                    p = paths["doc"]
+                    ap2 = os.path.join(alias, "ws", "pkg", "test_doc.py")
+                    bad = HDR + "def test_ok(fa, fd):\n    pass\n\ndef test_und():\n    v = fb\n    return fb.x\n"
+                    good = HDR + "def test_ok(fa, fd):\n    pass\n"
+                    before = srv.seq
+                    (srv.did_change if "doc" in opened else srv.did_open)(p, bad)
+                    opened.add("doc")
+                    srv.wait_diagnostics(p, before, timeout=20)
+                    before = srv.seq
+                    srv.did_open(ap2, bad)
+                    srv.wait_diagnostics(ap2, before, timeout=20)
+                    before = srv.seq
+                    srv.did_change(p, good)
+                    got = srv.wait_diagnostics(p, before, timeout=20)
+                    cur["doc"] = last_valid["doc"] = good
+                    vh.call(op="drop_db", db=db)
+                    db = vh.new_db()
+                    vh.call(op="scan_config", db=db, root=root)
+                    for t_ in [x for x in cur if x != "doc"] + ["doc"]:
+                        if t_ in last_valid:
+                            vh.call(op="analyze", db=db, path=paths[t_], text=last_valid[t_])
+                    exp = expected_from_library(vh, db, p, disabled)
+                    ctx.judged()
+                    gotn = sorted((norm_diag(d) for d in (got or [])), key=str)
+                    if got is None:
+                        ctx.violation({"kind": "no-publish-under-the-uri-of-the-change", "variant": label},
+                                      {"uris_published_since": sorted(u for u, lst in srv.diag.items() if lst and lst[-1][0] > before)}, files=files | {"doc.py": good})
+                    elif gotn != exp:
+                        ctx.violation({"kind": "published-set-differs", "variant": label, "op": "changed_under_first_of_two_uris",
+                                       "missing": [str(x)[:120] for x in exp if x not in gotn][:3], "unexpected": [str(x)[:120] for x in gotn if x not in exp][:3]},
+                                      {"disabled": sorted(disabled)}, files=files | {"doc.py": good})
+                    ctx.nontrivial((label, "two_uris_for_one_document", tuple(sorted({d.get("code") for d in (got or [])}))))
+                    srv.did_close(ap2)
                 ctx.sample({"variant": label, "toml": toml, "history": hist})
                 ctx.count("sessions")
             finally:
